@@ -78,7 +78,67 @@ def implResolvedJson (j : Json) : Json :=
     "headerOverrides", "inject", "tlsSkipVerify", "preserveHost", "skipSigning", "cookieName", "providerSlug", "hmac",
     "skipPreflight", "passAccessToken"].map fun k => (k, g k))
 
+/-- `parseEnvironment`: of the entries that start with `SSO_CONFIG_`, key = the lower-cased name after the prefix, value =
+everything after the **first** `=`; a later entry with the same key wins -/
+def envModel (lowerOf : String → String) (environ : List String) : List (String × String) :=
+  environ.foldl (fun acc e =>
+    if e.startsWith "SSO_CONFIG_" then
+      match e.splitOn "=" with
+      | name :: rest =>
+        let key := lowerOf name |>.drop "sso_config_".length |>.toString
+        let val := "=".intercalate rest
+        (key, val) :: acc.filter (·.1 != key)
+      | [] => acc
+    else acc) []
+
+def checkEnv (j : Json) : Except String Verdict := do
+  let environ := ((jarr j "environ").toOption.getD #[]).toList.filterMap fun x => (x.getStr?.toOption.bind unhex).map fun b => String.fromUTF8! ⟨b.toArray⟩
+  let lk : Json := (j.getObjVal? "lowerKeys").toOption.getD Json.null
+  let lowerOf (s : String) : String := match lk.getObjVal? (hex s.toUTF8.toList) with
+    | .ok (.str h) => ((unhex h).map fun b => String.fromUTF8! ⟨b.toArray⟩).getD s
+    | _ => s
+  let want := (envModel lowerOf environ).toArray.qsort (fun a b => a.1 < b.1) |>.toList
+  let got : List (String × String) := match j.getObjVal? "got" with
+    | .ok (.obj kvs) => (kvs.foldl (init := []) fun acc k v =>
+        (((unhex k).map fun b => String.fromUTF8! ⟨b.toArray⟩).getD "?", ((v.getStr?.toOption.bind unhex).map fun b => String.fromUTF8! ⟨b.toArray⟩).getD "?") :: acc).toArray.qsort (fun a b => a.1 < b.1) |>.toList
+    | _ => []
+  let mut v : Verdict := { nontrivial := !environ.isEmpty }
+  v := v.cmp 0 "env.vars" want got ["C14", "C12"]
+  -- a value is never cut at a later '=' (padded base64 secrets, URLs with queries)
+  for (k, val) in want do
+    match got.find? (·.1 == k) with
+    | some (_, g) => if g != val then
+        v := v.mon "C12" "signing_key_from_environment_intact" 0 s!"{k}: '{g}' instead of '{val}'"
+        v := v.mon "C14" "template_variable_from_environment_intact" 0 s!"{k}: '{g}' instead of '{val}'"
+    | none => v := v.mon "C14" "template_variable_from_environment_intact" 0 s!"{k} missing"
+  v := v.br "env"
+  pure v
+
+/-- `LoadConfig` from the process environment: either it refuses (an error — or a crash — at start-up), or the cluster name
+and the deployment-default group list it loaded are exactly the ones stated -/
+def checkLoadEnv (j : Json) : Except String Verdict := do
+  let env := (j.getObjVal? "env").toOption.getD Json.null
+  let out := (j.getObjVal? "out").toOption.getD Json.null
+  let get (o : Json) (k : String) : Option String := (o.getObjVal? k).toOption.bind (·.getStr?.toOption)
+  let loaded := (out.getObjVal? "loaded").toOption.bind (·.getBool?.toOption) |>.getD false
+  let mut v : Verdict := { nontrivial := true }
+  v := v.br (if loaded then "loadenv/loaded" else "loadenv/refused")
+  if loaded then
+    match get env "UPSTREAM_CLUSTER" with
+    | some c => if get out "cluster" != some c then
+        v := v.mon "C14" "selected_cluster_as_stated" 0 s!"UPSTREAM_CLUSTER={c} loaded as cluster {get out "cluster"}"
+    | none => pure ()
+    match get env "UPSTREAM_DEFAULT_GROUPS" with
+    | some g =>
+      let gotG := (jstrArr out "defaultGroups").toOption.getD []
+      if gotG != g.splitOn "," then
+        v := v.mon "C14" "deployment_default_as_stated" 0 s!"UPSTREAM_DEFAULT_GROUPS={g} loaded as {gotG}"
+    | none => pure ()
+  pure v
+
 def checkCase (j : Json) : Except String Verdict := do
+  if (j.getObjVal? "kind").toOption.bind (·.getStr?.toOption) == some "loadenv" then return ← checkLoadEnv j
+  if (j.getObjVal? "kind").toOption.bind (·.getStr?.toOption) == some "env" then return ← checkEnv j
   let doc ← jget j "doc"
   let vars : List (String × String) := match doc.getObjVal? "vars" with
     | .ok (.obj kvs) => kvs.foldl (init := []) fun acc k v => (k, v.getStr?.toOption.getD "") :: acc
